@@ -381,6 +381,9 @@ class ConfigurationRepository:
         self.config = config if config is not None else {}
         self.name = self.config.get("name", None)
         self.base_dir = self.config.get("base_dir", None)
+        if base_dir is not None:
+            # Relative cluster files below are resolved against the effective base directory
+            self.base_dir = base_dir
         self.description = self.config.get("description", None)
         self.maintainer = self.config.get("maintainer", None)
         self.documentation = self.config.get("documentation", None)
@@ -511,6 +514,9 @@ class Environment:
         self.config = config
         self.name = config.get("name", "default")
         self.base_dir = config.get("base_dir", None)
+        if base_dir is not None:
+            # Relative repository files below are resolved against the effective base directory
+            self.base_dir = base_dir
         self.repos = [
             ConfigurationRepository(_load_config(self.base_dir, repo_config))
             for repo_config in config.get("repos", [])
